@@ -7,7 +7,7 @@ from framework import REPO, ROOT
 
 TIE = ["Nsq.Tie.AdminAgg"]
 PROPS = ["Nsq.Props.C18"]
-STREAMS = [("views", "^TestVerifE7Views$"), ("malformed", "^TestVerifE7Malformed$")]
+STREAMS = [("getv1", "^TestVerifE7GetV1$"), ("views", "^TestVerifE7Views$"), ("malformed", "^TestVerifE7Malformed$")]
 
 
 # ----------------------------------------------------------------------------- op-line parser
@@ -192,6 +192,17 @@ def expected_status(req, w):
 
 def property_fails_on(op, impl):
     """Evaluate C18 on one case and the implementation's own answer (independent of the Lean model)."""
+    if op.startswith("getv1 "):
+        # the request helper: a normal answer or the one allowed upgrade succeeds; everything else is ONE failed
+        # answer after at most one request per port
+        f = dict(t.split("=") for t in op.split()[1:])
+        a = impl.split()
+        ok_expected = f["mode"] in ("0", "7") or (f["https"] == "1" and f["mode"] in ("9", "10", "11"))
+        if (a[0] == "ok") != ok_expected:
+            return "GETV1 against stub behaviour %s (https=%s) returned %s" % (f["mode"], f["https"], a[0])
+        if int(a[1]) > 1 or int(a[2]) > 1:
+            return "GETV1 sent %s plain and %s TLS requests for one fetch" % (a[1], a[2])
+        return None
     try:
         req, w = parse_op(op)
     except Exception as ex:  # malformed op line: machinery problem, not a property failure
@@ -364,6 +375,12 @@ def crash_key(out):
 
 
 def finding_key(site, what=""):
+    if site == "view-hangs":
+        return "view-hangs"
+    return _finding_key(site)
+
+
+def _finding_key(site):
     """The same key for a generated failure and for the committed replay of the same defect, so that an entry
     of known_findings (open or fixed) absorbs exactly its own defect."""
     if "UnmarshalJSON" in site:
@@ -378,17 +395,20 @@ def finding_key(site, what=""):
 
 
 def run_stream(ctx, binp, name, test, n):
-    """Run one harness stream to the end, restarting after every process death.
-    Returns (ops, impl, crashes) where crashes = [(op, panic text, site)]."""
+    """Run one harness stream to the end, restarting after every process death or hang.
+    Returns (ops, impl, crashes, error) where crashes = [(op, panic text, site, trace)]; a view that got no
+    answer within its deadline is reported with site "view-hangs"."""
     ops_all, impl_all, crashes = [], [], []
-    skip = 0
+    skip, hangs = 0, 0
     for attempt in range(400):
         for suffix in (".ops", ".impl"):
             p = os.path.join(ctx.work, name + suffix)
             if os.path.exists(p):
                 os.remove(p)
-        rc, out = ctx.run_cmd([binp, "-test.run", test, "-test.count=1", "-test.timeout=900s"], timeout=1000,
-                              env={"VERIF_SEED": ctx.seed, "VERIF_OUT": ctx.work, "VERIF_N": n, "VERIF_SKIP": skip})
+        env = {"VERIF_SEED": ctx.seed, "VERIF_OUT": ctx.work, "VERIF_N": n, "VERIF_SKIP": skip}
+        if hangs >= 2:
+            env["VERIF_HANG_OFF"] = "1"   # the hang has its replays; do not wait 5 s for every further occurrence
+        rc, out = ctx.run_cmd([binp, "-test.run", test, "-test.count=1", "-test.timeout=900s"], timeout=1000, env=env)
         opsp, implp = os.path.join(ctx.work, name + ".ops"), os.path.join(ctx.work, name + ".impl")
         ops = open(opsp).read().splitlines() if os.path.exists(opsp) else []
         impl = open(implp).read().splitlines() if os.path.exists(implp) else []
@@ -399,12 +419,18 @@ def run_stream(ctx, binp, name, test, n):
             ops_all += ops
             impl_all += impl[:len(ops)]
             return ops_all, impl_all, crashes, None
-        if len(ops) == len(impl) + 1:
-            what, site = crash_key(out)
-            crashes.append((ops[-1], what, site, out[-3000:]))
+        idxp = os.path.join(ctx.work, name + ".idx")
+        if len(ops) == len(impl) + 1 and os.path.exists(idxp):
+            hang = [l for l in out.splitlines() if l.startswith("VIEW-HANGS")]
+            if hang:
+                hangs += 1
+                crashes.append((ops[-1], hang[0], "view-hangs", hang[0]))
+            else:
+                what, site = crash_key(out)
+                crashes.append((ops[-1], what, site, out[-3000:]))
             ops_all += ops[:-1]
             impl_all += impl
-            skip += len(ops)
+            skip = int(open(idxp).read().strip()) + 1
             continue
         return ops_all + ops[:len(impl)], impl_all + impl, crashes, "harness %s exit %s:\n%s" % (test, rc, out[-2000:])
     return ops_all, impl_all, crashes, "harness %s: more than 400 process deaths" % test
@@ -458,14 +484,17 @@ def run(ctx):
     elif ctx.replay_in:
         # --replay <file>: re-execute the op lines of one replay file, model and implementation side by side
         lines = [l[4:] if l.startswith("op: ") else l for l in open(ctx.replay_in).read().splitlines()]
-        for op in [l for l in lines if l.startswith("view ")]:
+        for op in [l for l in lines if l.startswith("view ") or l.startswith("getv1 ")]:
             impl, crash = replay_one(ctx, binp, op)
             rc, mout = ctx.driver("e7", stdin=op + "\n")
             ctx.count_case(op, nontrivial=True)
             print("op:    " + op[:400])
-            print("impl:  " + (impl if impl else "PROCESS DIED: %s in %s" % crash[:2]))
+            print("impl:  " + (impl if impl else ("NO ANSWER: %s" % crash[0] if crash[1] == "view-hangs" else
+                                                   "PROCESS DIED: %s in %s" % crash[:2])))
             print("model: " + mout.strip())
-            if crash:
+            if crash and crash[1] == "view-hangs":
+                ctx.violation("view-hangs", "no answer within the deadline: %s" % crash[0], "op: %s\n\n%s\n" % (op, crash[2]))
+            elif crash:
                 ctx.violation(finding_key(crash[1]), "nsqadmin died (%s in %s) while serving the %s view" % (
                     crash[0], crash[1], req_key(op)), "op: %s\n\n%s\n" % (op, crash[2]))
             else:
@@ -482,6 +511,16 @@ def run(ctx):
                 ctx.log(err)
                 corr_broken.append(err.splitlines()[0])
             for op, what, site, trace in crashes:
+                if site == "view-hangs" and op.startswith("getv1"):
+                    ctx.violation("getv1-hangs", "the upstream request helper never returns: %s" % what,
+                                  "op: %s\n\n%s\n" % (op, trace))
+                    continue
+                if site == "view-hangs":
+                    ctx.violation("view-hangs", "the %s view never answers although other upstreams responded "
+                                  "(an upstream fetch does not terminate): %s" % (req_key(op), what),
+                                  "op: %s\n\n%s\nupstream behaviours (X … sym endpoint mode): 8 = 403 {\"https_port\": N} on the "
+                                  "plain port and again on port N\n" % (op, trace))
+                    continue
                 ctx.violation(finding_key(site),
                               "nsqadmin died (%s in %s) while serving the %s view" % (what, site, req_key(op)),
                               "op: %s\n\n%s\n" % (op, trace))
@@ -492,7 +531,7 @@ def run(ctx):
             model = mout.splitlines()
             kinds = {}
             for o, i in zip(ops, impl):
-                ctx.count_case(o, nontrivial=i.startswith("200 ") and not i.endswith(" -"))
+                ctx.count_case(o, nontrivial=(i.startswith("200 ") and not i.endswith(" -")) or o.startswith("getv1"))
                 k = o.split()[1] + ":" + i.split()[0]
                 kinds[k] = kinds.get(k, 0) + 1
             ctx.corr.setdefault("outcomes", {})[name] = kinds
@@ -504,6 +543,8 @@ def run(ctx):
                 if bad:
                     failing.add(idx)
                     key = "view:%s:%s" % (req_key(o), i.split()[0])
+                    if o.startswith("getv1"):
+                        key = "getv1:" + o.split()[2]
                     if key == "view:channel:500":
                         key = "view:channel-not-found"
                     elif key == "view:topic:500" and " 0 " in o:
@@ -565,6 +606,9 @@ def replay_one(ctx, binp, op):
     implp = os.path.join(ctx.work, "replay.impl")
     impl = open(implp).read().splitlines() if os.path.exists(implp) else []
     if rc != 0:
+        hang = [l for l in out.splitlines() if l.startswith("VIEW-HANGS")]
+        if hang:
+            return None, (hang[0], "view-hangs", hang[0])
         what, site = crash_key(out)
         return None, (what, site, out[-3000:])
     return (impl[0] if impl else "no-answer"), None
